@@ -92,10 +92,13 @@ def build_files(files, edges, variant):
 HEADER_RE = re.compile(r"^=== (.*) ===$", re.M)
 
 
-def run_graph(root, mod, idx, files, edges, variant):
+ENTRY_SPELLINGS = ["main.capy", "./main.capy", "d/../main.capy", ".//main.capy"]
+
+
+def run_graph(root, mod, idx, files, edges, variant, entry=0):
     srcs, expected, reachable = build_files(files, edges, variant)
     jobdir = os.path.join(root, f"g{idx}")
-    res = core.run_capy(jobdir, srcs, mod, extra_args=("--verbose-ast", "local"))
+    res = core.run_capy(jobdir, srcs, mod, main=ENTRY_SPELLINGS[entry], extra_args=("--verbose-ast", "local"))
     got = res.run_out.decode("utf8", "replace")
     problems = []
     if res.errors or res.panicked or res.internal_error or res.compile_rc != 0:
@@ -113,8 +116,8 @@ def run_graph(root, mod, idx, files, edges, variant):
     if not problems:
         shutil.rmtree(jobdir, ignore_errors=True)
         return None
-    key = "graph/" + ",".join(f"{s}>{d}" for s, d in sorted(edges)) + f"/spelling{variant}"
-    c = Case(key, "", expected, meta={"files": srcs, "exit": 0})
+    key = "graph/" + ",".join(f"{s}>{d}" for s, d in sorted(edges)) + f"/spelling{variant}" + (f"/entry={ENTRY_SPELLINGS[entry]}" if entry else "")
+    c = Case(key, "", expected, meta={"files": srcs, "exit": 0, "main": ENTRY_SPELLINGS[entry]})
     kind = "compiler-panic" if res.panicked else "rejected" if res.errors else "wrong-import-resolution"
     return core.Mismatch(c, kind, res.summary(), "; ".join(problems[:4]))
 
@@ -205,19 +208,21 @@ def run(tier, seed):
     for mask in range(1 << len(pairs3)):
         edges = {pairs3[i] for i in range(len(pairs3)) if mask >> i & 1}
         for variant in ((mask % 3,) if quick else (0, 1, 2)):
-            jobs.append((FILES3, edges, variant))
+            # how the entry file is named on the command line (quick: one spelling per graph, rotating)
+            for entry in (((mask // 3) % 4,) if quick else (0, 1, 2, 3)):
+                jobs.append((FILES3, edges, variant, entry))
     if not quick:
         pairs4 = [(s, d) for s in FILES4 for d in FILES4]
         for k in range(1, 5):
             for combo in itertools.combinations(pairs4, k):
                 if not any("c.capy" in s or "c.capy" in d for s, d in combo):
                     continue
-                jobs.append((FILES4, set(combo), len(combo) % 3))
+                jobs.append((FILES4, set(combo), len(combo) % 3, 0))
     mism = []
     moddir_rel = os.path.relpath(mod, os.path.join(root, "dv0", "w"))
     devs = deviation_programs(moddir_rel)
     with concurrent.futures.ThreadPoolExecutor(8) as pool:
-        futs = [pool.submit(run_graph, root, mod, i, f, e, v) for i, (f, e, v) in enumerate(jobs)]
+        futs = [pool.submit(run_graph, root, mod, i, f, e, v, en) for i, (f, e, v, en) in enumerate(jobs)]
         futs += [pool.submit(run_deviation, root, mod, i, *d) for i, d in enumerate(devs)]
         for f in futs:
             m = f.result()
@@ -225,15 +230,15 @@ def run(tier, seed):
                 mism.append(m)
     coverage = {
         "states": len(jobs) + len(devs),
-        "transitions": sum(len(e) for _, e, _ in jobs) + len(devs),
+        "transitions": sum(len(e) for _, e, _, _ in jobs) + len(devs),
         "traces_validated_against_impl": len(jobs) + len(devs),
         "exhaustive": True,
         "rule": "a case = one directory tree (import graph with spellings, or one deviation); each compiled by the real CLI with --verbose-ast local and executed",
         "bounds_completed": {"graphs_over_3_files": 512, "spellings": 3 if not quick else "1 per graph (rotating)",
-                             "graphs_over_4_files": 0 if quick else len(jobs) - 1536, "deviations": len(devs), "import_path_length": 3},
+                             "graphs_over_4_files": 0 if quick else len(jobs) - 512 * 12, "entry_spellings": ENTRY_SPELLINGS if not quick else "1 of 4 per graph (rotating)", "deviations": len(devs), "import_path_length": 3},
         "distinct_outcomes": 3,
         "compilations": len(jobs) + len(devs),
-        "samples": [{"edges": sorted(e), "spelling": v} for _, e, v in (jobs[1], jobs[len(jobs) // 2], jobs[-1])],
+        "samples": [{"edges": sorted(e), "spelling": v} for _, e, v, _ in (jobs[1], jobs[len(jobs) // 2], jobs[-1])],
     }
     core.finish("C28", tier, seed, started, coverage, mism, None, assumptions=[
         "<= 4 files in <= 3 directories (the quantifier allows 6 files); graphs are enumerated exhaustively for 3 files",
